@@ -51,6 +51,7 @@ func goid() int64 {
 var baseTime = time.Date(2024, 1, 1, 0, 0, 0, 0, time.UTC)
 
 func init() {
+	types.VerifSigMemo = true // VerifySignature is pure; netsim does not decide signature properties (C11 does)
 	ktime.VerifClock = func() time.Time {
 		clockMu.RLock()
 		w := clocks[goid()]
